@@ -103,6 +103,10 @@ theorem clean_trimSpace {s : String} (h : Clean s) : Clean (trimSpace s) := by
 theorem clean_takeChars {s : String} (h : Clean s) (n : Nat) : Clean (takeChars s n) :=
   clean_ofList ((clean_toList h).take n)
 
+theorem clean_firstWord {s : String} (h : Clean s) : Clean (firstWord s) := by
+  unfold firstWord
+  exact clean_ofList ((clean_toList h).sub fun _ hc => (List.takeWhile_sublist _).subset hc)
+
 theorem clean_dropChars {s : String} (h : Clean s) (n : Nat) : Clean (dropChars s n) :=
   clean_ofList ((clean_toList h).drop n)
 
